@@ -351,6 +351,10 @@ int sx127x_fsk_ook_read_payload_batch(bool read_batch, sx127x *device) {
   if (device->expected_packet_length == device->fsk_ook_packet_sent_received) {
     return SX127X_OK;
   }
+  // a packet that does not fit into the buffer (CONFIG_SX127X_MAX_PACKET_SIZE) is not read
+  if (device->expected_packet_length > sizeof(device->packet)) {
+    return SX127X_ERR_INVALID_ARG;
+  }
 
   uint8_t batch_size = HALF_MAX_FIFO_THRESHOLD - 1;
   if (read_batch && device->fsk_ook_packet_sent_received + batch_size < device->expected_packet_length) {
@@ -366,6 +370,9 @@ int sx127x_fsk_ook_read_payload_batch(bool read_batch, sx127x *device) {
       uint8_t irq;
       do {
         uint8_t value;
+        if (device->fsk_ook_packet_sent_received >= sizeof(device->packet)) {
+          return SX127X_ERR_INVALID_ARG;
+        }
         ERROR_CHECK(sx127x_read_register(REGFIFO, &device->spi_device, &value));
         device->packet[device->fsk_ook_packet_sent_received] = value;
         device->fsk_ook_packet_sent_received++;
@@ -445,6 +452,10 @@ void sx127x_fsk_ook_handle_interrupt(sx127x *device) {
       if (to_send == 0) {
         return;
       }
+      // never read the frame beyond the buffer
+      if ((size_t) device->fsk_ook_packet_sent_received + to_send > sizeof(device->packet)) {
+        return;
+      }
       // remaining bits not written to FIFO but modulator will eventually trigger SX127X_FSK_IRQ_PACKET_SENT
       ERROR_CHECK_NOCODE(sx127x_shadow_spi_write_buffer(REGFIFO, device->packet + device->fsk_ook_packet_sent_received, to_send, &device->spi_device));
       device->fsk_ook_packet_sent_received += to_send;
@@ -479,6 +490,12 @@ int sx127x_lora_rx_read_payload(sx127x *device) {
   } else {
     length = (uint8_t) device->expected_packet_length;
   }
+#if CONFIG_SX127X_MAX_PACKET_SIZE < MAX_PACKET_SIZE
+  // a packet that does not fit into the buffer is not read
+  if (length > CONFIG_SX127X_MAX_PACKET_SIZE) {
+    return SX127X_ERR_INVALID_ARG;
+  }
+#endif
   device->expected_packet_length = length;
 
   uint8_t current;
@@ -987,6 +1004,10 @@ int sx127x_fsk_ook_tx_set_for_transmission(const uint8_t *data, uint16_t data_le
   if (device->fsk_ook_format == SX127X_FIXED && data_length > MAX_PACKET_SIZE_FSK_FIXED) {
     return SX127X_ERR_INVALID_ARG;
   }
+  // the frame is assembled in the buffer (CONFIG_SX127X_MAX_PACKET_SIZE)
+  if ((size_t) data_length + (device->fsk_ook_format == SX127X_VARIABLE ? 1 : 0) > sizeof(device->packet)) {
+    return SX127X_ERR_INVALID_ARG;
+  }
   if (device->fsk_ook_format == SX127X_VARIABLE) {
     device->packet[0] = (uint8_t) data_length;
     // packet length is always more than 255
@@ -1004,6 +1025,10 @@ int sx127x_fsk_ook_tx_set_for_transmission_with_address(const uint8_t *data, uin
     return SX127X_ERR_INVALID_ARG;
   }
   if (device->fsk_ook_format == SX127X_FIXED && data_length > (MAX_PACKET_SIZE_FSK_FIXED - 1)) {
+    return SX127X_ERR_INVALID_ARG;
+  }
+  // the frame is assembled in the buffer (CONFIG_SX127X_MAX_PACKET_SIZE)
+  if ((size_t) data_length + (device->fsk_ook_format == SX127X_VARIABLE ? 2 : 1) > sizeof(device->packet)) {
     return SX127X_ERR_INVALID_ARG;
   }
   uint16_t offset = 0;
@@ -1035,6 +1060,12 @@ int sx127x_fsk_ook_tx_start_beacon(const uint8_t *data, uint8_t data_length, uin
   if (data_length > FIFO_SIZE_FSK) {
     return SX127X_ERR_INVALID_ARG;
   }
+#if CONFIG_SX127X_MAX_PACKET_SIZE < FIFO_SIZE_FSK
+  // the payload is staged in the buffer
+  if (data_length > CONFIG_SX127X_MAX_PACKET_SIZE) {
+    return SX127X_ERR_INVALID_ARG;
+  }
+#endif
 
   float p1 = 0.064f;
   float p2 = 4.1f;
